@@ -150,9 +150,10 @@ IPv4Reassembler::PacketStatus IPv4Reassembler::process(PDU& pdu) {
 }
 
 IPv4Reassembler::key_type IPv4Reassembler::make_key(const IP* ip) const {
+    // Fragments belong together only if they travel in the same direction
     return make_pair(
         ip->id(),
-        make_address_pair(ip->src_addr(), ip->dst_addr())
+        make_pair(ip->src_addr(), ip->dst_addr())
     );
 }
 
@@ -170,12 +171,8 @@ void IPv4Reassembler::clear_streams() {
 }
 
 void IPv4Reassembler::remove_stream(uint16_t id, IPv4Address addr1, IPv4Address addr2) {
-    streams_.erase(
-        make_pair(
-            id, 
-            make_address_pair(addr1, addr2)
-        )
-    );
+    streams_.erase(make_pair(id, make_pair(addr1, addr2)));
+    streams_.erase(make_pair(id, make_pair(addr2, addr1)));
 }
 
 } // Tins
